@@ -44,6 +44,8 @@ MV = [-1, 0, 1, 2]                    # matrix entry alphabet
 RV = [-1.0, 0.0, 1.0, 2.0]            # right-hand side alphabet
 WARR = {2: [2.0, 0.5], 3: [1.0, 2.0, 0.5]}
 X0PAT = [1.0, -2.0, 0.5]
+SCALES = [2.0 ** -17, 2.0 ** -30]      # scaled right-hand sides (zero start)
+WARM = 2.0 ** -20                       # warm starts x* + WARM * e_k
 
 
 # ----------------------------------------------------------------------------------------------
@@ -202,38 +204,59 @@ def run_cg(cfg):
                                            'wa': 'array-weighted'}[wk])
     first, evals, sigs = {}, 0, set()
     niter = n + 2
+    cases = []
     for b in _rhs_list(n, True):
+        cases.append((b, np.zeros(n), 'unit'))
+        cases.append((b, np.array(X0PAT[:n]), 'unit'))
+        # the clauses are scale invariant: tiny right-hand sides and warm starts next to the
+        # solution must satisfy them just the same (all powers of two: scaling is exact);
+        # n = 3: on the sub-alphabet {-1, 0, 2}^3
+        if n > 2 and not set(b.tolist()) <= set(RV3):
+            continue
+        for sc in SCALES:
+            cases.append((b * sc, np.zeros(n), 'scaled'))
         xs = np.linalg.solve(A, b)
-        for x0 in (np.zeros(n), np.array(X0PAT[:n])):
-            x = sp.element(x0.copy())
-            rec = Rec()
-            try:
-                odl.solvers.conjugate_gradient(op, x, sp.element(b), niter, callback=rec)
-            except Exception as e:
-                _first(first, 'raises:' + type(e).__name__,
-                       'S=%s b=%s x0=%s: %r' % (Sm.tolist(), b.tolist(), x0.tolist(), e))
-                continue
-            evals += 1
-            its = [x0] + rec.it
-            E = [float((z - xs).dot(Sm.dot(z - xs))) for z in its]
-            scale = 1.0 + float(xs.dot(Sm.dot(xs))) + E[0]
-            floor = 1e-18 * scale
-            info = 'S=%s w=%s b=%s x0=%s energy errors=%s' % (
-                Sm.tolist(), w.tolist(), b.tolist(), x0.tolist(), ['%.3e' % e for e in E])
-            for k in range(len(E) - 1):
-                if E[k] > floor and not E[k + 1] < E[k]:
-                    _first(first, 'energy_error_not_decreasing', 'step %d: %s' % (k + 1, info))
-                if E[k] <= floor and E[k + 1] > 100 * floor:
-                    _first(first, 'energy_error_not_decreasing',
-                           'leaves the solution at step %d: %s' % (k + 1, info))
-            if not np.array_equal(S.to_flat(x), its[-1]):
-                _first(first, 'result_is_not_last_iterate', info)
-            # exact after n steps (early return only allowed with a zero residual)
-            xn = its[n] if len(its) > n else its[-1]
-            if np.abs(xn - xs).max() > 1e-9 * (1.0 + np.abs(xs).max()):
-                _first(first, 'not_exact_after_n_steps',
-                       'x_n=%s x*=%s %s' % (xn.tolist(), xs.tolist(), info))
-            sigs.add('cg:%d:%d' % (len(rec.it), sum(1 for e in E if e > floor)))
+        for k in range(n):
+            x0 = xs.copy()
+            x0[k] += WARM
+            cases.append((b, x0, 'warm'))
+    for b, x0, tag in cases:
+        xs = np.linalg.solve(A, b)
+        x = sp.element(x0.copy())
+        rec = Rec()
+        try:
+            odl.solvers.conjugate_gradient(op, x, sp.element(b), niter, callback=rec)
+        except Exception as e:
+            _first(first, 'raises:' + type(e).__name__,
+                   'S=%s b=%s x0=%s: %r' % (Sm.tolist(), b.tolist(), x0.tolist(), e))
+            continue
+        evals += 1
+        its = [x0] + rec.it
+        E = [float((z - xs).dot(Sm.dot(z - xs))) for z in its]
+        scale = (1.0 if tag == 'unit' else 0.0) + float(xs.dot(Sm.dot(xs))) + E[0]
+        floor = 1e-18 * scale
+        info = 'S=%s w=%s b=%r x0=%r x*=%r energy errors=%s' % (
+            Sm.tolist(), w.tolist(), b.tolist(), x0.tolist(), xs.tolist(),
+            ['%.3e' % e for e in E])
+        for k in range(len(E) - 1):
+            if E[k] > floor and not E[k + 1] < E[k]:
+                _first(first, 'energy_error_not_decreasing', 'step %d: %s' % (k + 1, info))
+            if E[k] <= floor and E[k + 1] > 100 * floor:
+                _first(first, 'energy_error_not_decreasing',
+                       'leaves the solution at step %d: %s' % (k + 1, info))
+        if not np.array_equal(S.to_flat(x), its[-1]):
+            _first(first, 'result_is_not_last_iterate', info)
+        # exact after n steps (early return only allowed with a zero residual); relative to the
+        # size of the instance, never looser than 1e-9 (1 + |x*|)
+        xn = its[n] if len(its) > n else its[-1]
+        tol = 1e-9 * (1.0 + np.abs(xs).max())
+        if tag != 'unit':
+            tol = min(tol, 1e-9 * max(np.abs(xs).max(), np.abs(x0 - xs).max()))
+        if np.abs(xn - xs).max() > tol:
+            _first(first, 'not_exact_after_n_steps',
+                   '|x_n - x*| = %.3e > %.3e: x_n=%r %s' % (np.abs(xn - xs).max(), tol,
+                                                            xn.tolist(), info))
+        sigs.add('cg:%s:%d:%d' % (tag, len(rec.it), sum(1 for e in E if e > floor)))
     return {'evals': evals, 'viol': _viol(site, first), 'sig': sorted(sigs)}
 
 
@@ -259,8 +282,24 @@ def run_cgn(cfg):
     first, evals, sigs = {}, 0, set()
     niter = n + 2
     Aadj = R.adjoint_matrix(A, wx, wy)
+    def _ls(b):
+        # least-squares solution (minimal norm in the weighted space if under-determined)
+        if m >= n:
+            return np.linalg.solve(Aadj.dot(A), Aadj.dot(b))
+        return Aadj.dot(np.linalg.solve(A.dot(Aadj), b))
+
+    cases = []
     for b in _rhs_list(m):
-        for x0 in (np.zeros(n), np.array(X0PAT[:n])):
+        cases.append((b, np.zeros(n), 'unit'))
+        cases.append((b, np.array(X0PAT[:n]), 'unit'))
+        for sc in SCALES:               # scale invariance: tiny right-hand sides, warm starts
+            cases.append((b * sc, np.zeros(n), 'scaled'))
+        for k in (0, n - 1):
+            x0 = _ls(b)
+            x0[k] += WARM
+            cases.append((b, x0, 'warm'))
+    for b, x0, tag in cases:
+        if True:
             x = op.domain.element(x0.copy())
             rec = Rec()
             try:
@@ -273,8 +312,8 @@ def run_cgn(cfg):
             evals += 1
             its = [x0] + rec.it
             res = [R.wnorm(A.dot(z) - b, wy) for z in its]
-            tol = 1e-12 * (1.0 + R.wnorm(b, wy) + max(res))
-            info = 'A=%s wx=%s wy=%s b=%s x0=%s residuals=%s' % (
+            tol = 1e-12 * ((1.0 if tag == 'unit' else 0.0) + R.wnorm(b, wy) + max(res))
+            info = 'A=%s wx=%s wy=%s b=%r x0=%r residuals=%s' % (
                 A.tolist(), wx.tolist(), wy.tolist(), b.tolist(), x0.tolist(),
                 ['%.6e' % r for r in res])
             for k in range(len(res) - 1):
@@ -286,10 +325,14 @@ def run_cgn(cfg):
                 # CG on A*A x = A*b with A*A positive definite: exact after n steps
                 xs = np.linalg.solve(Aadj.dot(A), Aadj.dot(b))
                 xn = its[n] if len(its) > n else its[-1]
-                if np.abs(xn - xs).max() > 1e-8 * (1.0 + np.abs(xs).max()):
+                etol = 1e-8 * (1.0 + np.abs(xs).max())
+                if tag != 'unit':
+                    etol = min(etol, 1e-8 * max(np.abs(xs).max(), np.abs(x0 - xs).max()))
+                if np.abs(xn - xs).max() > etol:
                     _first(first, 'not_exact_after_n_steps',
-                           'x_n=%s x*=%s %s' % (xn.tolist(), xs.tolist(), info))
-            sigs.add('cgn:%d:%s' % (len(rec.it), res[-1] > tol))
+                           '|x_n - x*| = %.3e > %.3e: x_n=%r x*=%r %s' % (
+                               np.abs(xn - xs).max(), etol, xn.tolist(), xs.tolist(), info))
+            sigs.add('cgn:%s:%d:%s' % (tag, len(rec.it), res[-1] > tol))
     return {'evals': evals, 'viol': _viol(site, first), 'sig': sorted(sigs)}
 
 
@@ -306,10 +349,21 @@ def run_landweber(cfg):
     nrm = R.opnorm(A, wx, wy)
     first, evals, sigs, skipped = {}, 0, set(), 0
     niter = 8
+    Aadj = R.adjoint_matrix(A, wx, wy)
+    cases = []
     for b in _rhs_list(m):
-        for x0 in (np.zeros(n), np.array(X0PAT[:n])):
+        cases.append((b, np.zeros(n), 'unit'))
+        cases.append((b, np.array(X0PAT[:n]), 'unit'))
+        cases.append((b * SCALES[0], np.zeros(n), 'scaled'))
+        cases.append((b * SCALES[1], np.zeros(n), 'scaled'))
+        x0 = (np.linalg.solve(Aadj.dot(A), Aadj.dot(b)) if m >= n
+              else Aadj.dot(np.linalg.solve(A.dot(Aadj), b)))
+        x0[0] += WARM
+        cases.append((b, x0, 'warm'))
+    for b, x0, tag in cases:
+        if True:
             for om in LW_OMEGA + ['default']:
-                if x0.any() and om != 1.0:
+                if (x0.any() and om != 1.0) or (tag == 'scaled' and om not in (1.0, 1.9)):
                     continue
                 x = op.domain.element(x0.copy())
                 rec = Rec()
@@ -338,8 +392,8 @@ def run_landweber(cfg):
                 evals += 1
                 its = [x0] + rec.it
                 res = [R.wnorm(A.dot(z) - b, wy) for z in its]
-                tol = 1e-12 * (1.0 + R.wnorm(b, wy) + max(res))
-                info = 'A=%s wx=%s wy=%s b=%s x0=%s omega=%r (=%s*||A||^-2) residuals=%s' % (
+                tol = 1e-12 * ((1.0 if tag == 'unit' else 0.0) + R.wnorm(b, wy) + max(res))
+                info = 'A=%s wx=%s wy=%s b=%r x0=%r omega=%r (=%s*||A||^-2) residuals=%s' % (
                     A.tolist(), wx.tolist(), wy.tolist(), b.tolist(), x0.tolist(), omega_eff,
                     omega_eff * nrm ** 2, ['%.6e' % r for r in res])
                 for k in range(len(res) - 1):
@@ -347,7 +401,7 @@ def run_landweber(cfg):
                         _first(first, 'residual_increases', 'step %d: %s' % (k + 1, info))
                 if len(rec.it) != niter or not np.array_equal(S.to_flat(x), its[-1]):
                     _first(first, 'result_is_not_last_iterate', info)
-                sigs.add('lw:%s:%s' % (om, res[-1] < 0.5 * res[0]))
+                sigs.add('lw:%s:%s:%s' % (tag, om, res[-1] < 0.5 * res[0]))
     return {'evals': evals, 'viol': _viol(site, first), 'sig': sorted(sigs), 'skipped': skipped}
 
 
